@@ -1171,7 +1171,15 @@ extern void
 io_close(file_pair *pair, bool success)
 {
 	// Take care of sparseness at the end of the output file.
-	if (success && pair->dest_try_sparse
+	//
+	// If the operation failed and we are writing to a named file, the
+	// file will be removed and nothing needs to be done. With standard
+	// output the data written so far stays where it is, so the pending
+	// hole must be created in that case too. Otherwise the zero bytes
+	// that were decoded before the error would be lost when stdout
+	// is a regular file.
+	if ((success || pair->dest_fd == STDOUT_FILENO)
+			&& pair->dest_try_sparse
 			&& pair->dest_pending_sparse > 0) {
 		// Seek forward one byte less than the size of the pending
 		// hole, then write one zero-byte. This way the file grows
